@@ -298,6 +298,7 @@ func c19Core(run *mon.Run) {
 				wg.Add(1)
 				go func(g int) {
 					defer wg.Done()
+					defer run.Protect("c19 worker")
 					r := run.Rand(fmt.Sprintf("storm-%d-%d-%d", rep, G, g))
 					local := [2]hash.Hasher{hash.NewSHA3_256(), hash.NewSHA2_256()} // per-goroutine ECDSA hashers
 					for i := 0; i < calls/G && !failed.Load(); i++ {
